@@ -124,7 +124,7 @@ def family_fixed(tier, seed, n=None):
                 size = 3
             fields = [fld("a", 2, False), fld("k", 2, False, rand=False, init=rnd.randrange(4)),
                       list_field("l", 2, rnd.random() < 0.2 and kind not in ("sum",), init=[0] * size, cap=5),
-                      list_field("nl", 2, False, rand=False, init=[1, 2] if kind != "fe_tbl" else [rnd.randrange(4) for _ in range(4)], cap=5)]
+                      list_field("nl", 2, False, rand=False, init=[1, 2] if kind != "fe_tbl" else [rnd.randrange(4) for _ in range(4)], cap=6)]      # (four elements and two appends)
             body = body_fixed(rnd, kind)
             if rnd.random() < 0.4:
                 body.append(E(B("ne", F("a"), F("k"))))
